@@ -12,8 +12,8 @@
 (***************************************************************************)
 EXTENDS TraceIO, CharCount
 
-VARIABLES l, bad, cell, info, acc, failW, totW, nleaf, done, stats
-vars == <<l, bad, cell, info, acc, failW, totW, nleaf, done, stats>>
+VARIABLES l, bad, cell, info, acc, failW, cutW, totW, nleaf, done, stats
+vars == <<l, bad, cell, info, acc, failW, cutW, totW, nleaf, done, stats>>
 
 NoCell == [op |-> "none"]
 Tol == 2
@@ -111,6 +111,7 @@ Expected(c, lf) ==
   ELSE Replay(lf.d, 1, c.maxTrials)
 
 LeafWhys(c, lf) ==
+  IF lf.res.kind = "cut" THEN <<"ok">> ELSE
   LET r == info.r
       res == lf.res
       chars == TokChars(res.toks)
@@ -154,15 +155,15 @@ EndWhys(c) ==
   ELSE
   <<IF totW # c.denInt THEN "H:leaf-masses-do-not-sum-to-one" ELSE "ok",
     IF nleaf # c.nleaves THEN "H:leaf-count" ELSE "ok",
-    IF DOMAIN acc # {} /\ Cardinality(Weights) # 1 THEN "P:C02:valid-strings-are-not-equally-likely" ELSE "ok",
-    IF DOMAIN acc # {} /\ Cardinality(DOMAIN acc) # CountValidInt(r) THEN "P:C02:some-string-the-recipe-allows-is-never-returned" ELSE "ok",
+    IF DOMAIN acc # {} /\ cutW = 0 /\ Cardinality(Weights) # 1 THEN "P:C02:valid-strings-are-not-equally-likely" ELSE "ok",
+    IF DOMAIN acc # {} /\ cutW = 0 /\ Cardinality(DOMAIN acc) # CountValidInt(r) THEN "P:C02:some-string-the-recipe-allows-is-never-returned" ELSE "ok",
     \* C06: no output likelier than 2^-E:  E <= log2(den / maxw); equality when uniform
     IF DOMAIN acc # {} /\ c.ent.k \notin {"panic"} /\
        ~(LET N == FromInt(c.denInt \div MaxW) IN    \* floor(den/maxw) <= 1/pmax ; exact when maxw | den
            IF c.denInt % MaxW = 0 THEN EntropyNotAbove(c.ent, N, Tol)
            ELSE EntropyNotAbove(c.ent, Add(N, One), Tol))
       THEN "P:C06:some-password-is-likelier-than-2^-Entropy" ELSE "ok",
-    IF DOMAIN acc # {} /\ Cardinality(Weights) = 1 /\ failW = 0 /\ c.ent.k \notin {"panic"} /\ c.denInt % MaxW = 0
+    IF DOMAIN acc # {} /\ Cardinality(Weights) = 1 /\ failW = 0 /\ cutW = 0 /\ c.ent.k \notin {"panic"} /\ c.denInt % MaxW = 0
        /\ ~EntropyIsLog2(c.ent, FromInt(c.denInt \div MaxW), Tol)
       THEN "P:C06:entropy-below-the-true-value-for-a-uniform-recipe" ELSE "ok"
   >>
@@ -171,7 +172,7 @@ RECURSIVE BadOf(_,_,_)
 BadOf(line, ws, i) == IF i > Len(ws) THEN <<>>
                       ELSE (IF ws[i] = "ok" THEN <<>> ELSE <<Bad(line, ws[i])>>) \o BadOf(line, ws, i+1)
 
-Init == /\ l = 1 /\ bad = <<>> /\ cell = NoCell /\ info = NoCell /\ acc = <<>> /\ failW = 0 /\ totW = 0 /\ nleaf = 0 /\ done = FALSE
+Init == /\ l = 1 /\ bad = <<>> /\ cell = NoCell /\ info = NoCell /\ acc = <<>> /\ failW = 0 /\ cutW = 0 /\ totW = 0 /\ nleaf = 0 /\ done = FALSE
         /\ stats = [cells |-> 0, leaves |-> 0, decided |-> 0]
 
 LeafWeight(c, lf) == IF Decidable(c) THEN ToInt(lf.w) ELSE 0
@@ -180,7 +181,7 @@ Step ==
   /\ l <= NLines
   /\ LET e == Trace[l] IN
      CASE e.op = "cell" ->
-            /\ cell' = e /\ info' = InfoOf(e) /\ acc' = <<>> /\ failW' = 0 /\ totW' = 0 /\ nleaf' = 0
+            /\ cell' = e /\ info' = InfoOf(e) /\ acc' = <<>> /\ failW' = 0 /\ cutW' = 0 /\ totW' = 0 /\ nleaf' = 0
             /\ bad' = bad \o BadOf(l, CellWhys(e), 1)
             /\ stats' = [stats EXCEPT !.cells = @ + 1]
        [] e.op = "leaf" ->
@@ -190,21 +191,22 @@ Step ==
                /\ acc' = IF e.res.kind = "ok" /\ Decidable(cell)
                          THEN (IF s \in DOMAIN acc THEN [acc EXCEPT ![s] = @ + w] ELSE acc @@ (s :> w))
                          ELSE acc
-               /\ failW' = IF e.res.kind = "ok" THEN failW ELSE failW + w
+               /\ failW' = IF e.res.kind \in {"ok", "cut"} THEN failW ELSE failW + w
+               /\ cutW' = IF e.res.kind = "cut" THEN cutW + w ELSE cutW
                /\ totW' = totW + w /\ nleaf' = nleaf + 1
                /\ stats' = [stats EXCEPT !.leaves = @ + 1]
                /\ UNCHANGED <<cell, info>>
        [] e.op = "cellend" ->
             /\ bad' = bad \o BadOf(l, EndWhys(cell), 1)
             /\ stats' = [stats EXCEPT !.decided = @ + (IF Decidable(cell) /\ DOMAIN acc # {} THEN 1 ELSE 0)]
-            /\ cell' = NoCell /\ info' = NoCell /\ acc' = <<>> /\ failW' = 0 /\ totW' = 0 /\ nleaf' = 0
+            /\ cell' = NoCell /\ info' = NoCell /\ acc' = <<>> /\ failW' = 0 /\ cutW' = 0 /\ totW' = 0 /\ nleaf' = 0
        [] OTHER -> /\ bad' = bad \o <<Bad(l, "H:unknown-op")>>
-                   /\ UNCHANGED <<cell, info, acc, failW, totW, nleaf, stats>>
+                   /\ UNCHANGED <<cell, info, acc, failW, cutW, totW, nleaf, stats>>
   /\ l' = l + 1 /\ UNCHANGED done
 
 Finish == /\ l = NLines + 1 /\ ~done
           /\ WriteResult(bad, stats)
-          /\ done' = TRUE /\ UNCHANGED <<l, bad, cell, info, acc, failW, totW, nleaf, stats>>
+          /\ done' = TRUE /\ UNCHANGED <<l, bad, cell, info, acc, failW, cutW, totW, nleaf, stats>>
 
 Next == Step \/ Finish
 Spec == Init /\ [][Next]_vars
